@@ -123,7 +123,7 @@ theorem earlier_notes_lt {pre r : List Block} {s : Rat} {ns : List Note} {T : Ra
     intro n hn
     simp only [blockNotes, List.flatMap_cons, List.mem_append] at hn
     rcases hn with hn | hn
-    · have h1 := (h.2.1 n hn).2.1
+    · have h1 : n.start < endOf (p ++ (s, ns) :: r) T := (h.2.1 n hn).2.1
       have h2 := endOf_chain h.2.2
       linarith
     · exact ih h.2.2 n hn
@@ -140,9 +140,7 @@ def tableOf : List Block → Int → Rat → Tbl → Tbl
     tableOf rest (i + 1) T (upsert i (shiftBlock s ns, maxEnd (shiftBlock s ns) 0, endOf rest T - s) acc)
 
 theorem blockSections_head (r : List Block) (j : Int) (T : Rat) :
-    (match blockSections r j with
-      | (t, _) :: _ => t
-      | [] => T) = endOf r T := by
+    nextStart (blockSections r j) T = endOf r T := by
   cases r with
   | nil => rfl
   | cons b r' => obtain ⟨s, ns⟩ := b; rfl
